@@ -600,7 +600,7 @@ func ReleaseBody(steps int) func(x *vrt.Exec) {
 			w.apply(op, false)
 			vrt.Quiet(false)
 		}
-		causes := []string{"publisher-teardown", "publisher-disconnect", "replaced-then-old-publisher-leaves", "admin-delete"}
+		causes := []string{"publisher-teardown", "publisher-disconnect", "replaced-then-old-publisher-leaves", "admin-delete", "server-shutdown"}
 		for _, k := range kinds {
 			if w.players[k].attached {
 				causes = append(causes, "admin-stop:"+k)
@@ -639,6 +639,9 @@ func ReleaseBody(steps int) func(x *vrt.Exec) {
 		case cause == "admin-delete":
 			old.Close() // what DELETE /api/v1/streams/{path} does
 			extraRtsp = 1
+		case cause == "server-shutdown":
+			media.UnregistAll() // what Service.Close does with the streams
+			extraRtsp = 1       // the publisher's connection is the listener's business, not the stream's
 		default:
 			single = cause[len("admin-stop:"):]
 			want := map[string]string{"tcp": "net=rtsp-tcp", "udp": "net=rtsp-udp", "mc1": "multicast", "mc2": "multicast", "ws": "net=rtsp-tcp", "wsp": "wsp", "hflv": "net=http-flv", "wflv": "net=websocket-flv"}[single]
